@@ -164,6 +164,10 @@ func almostSafePrimeProductVerifyProof(N *big.Int, challenge *big.Int, index *bi
 		t2 := new(big.Int).ModInverse(t1, N)
 		t3 := new(big.Int).Exp(t1, big.NewInt(2), N)
 		t4 := new(big.Int).ModInverse(t3, N)
+		if t2 == nil || t4 == nil {
+			// base is not invertible modulo N: it shares a factor with N, which a valid proof never does
+			return false
+		}
 
 		ok1 := t1.Cmp(yg) == 0
 		ok2 := t2.Cmp(yg) == 0
